@@ -194,6 +194,62 @@ func vh_C07_L3_receiver_skip_exact() {
 	vcover("end")
 }
 
+// C07.L3b: one skip that covers several abandoned messages. Two or three consecutive
+// ordered messages of a stream are each partly received (the first or the last fragment of
+// two), optionally with a complete unread message between them, and a complete message
+// follows; one forward-TSN reports the last of them: every partial message is dropped (the
+// bytes held return to exactly those of the complete messages), the complete ones are
+// delivered in order, nothing else is held. Cursor anywhere, wraps included.
+func vh_C07_L3_skip_covers_several_partial_messages() {
+	iData := vPick(2) == 1
+	r := newReassemblyQueue(3, 0)
+	next16 := nondetU16()
+	next32 := nondetU32()
+	r.nextSSN, r.nextMID = next16, next32
+	base := nondetU32()
+	k := 2 + vPick(2)
+	completeAt := vPick(k + 1) // one of the k messages is complete instead of partial (k: none)
+	var complete *vMsg
+	for i := 0; i < k; i++ {
+		d := uint16(i)
+		if i == completeAt {
+			complete = vMakeMsg(3, iData, false, next16+d, next32+uint32(d), base+uint32(2*i), 1, PayloadTypeWebRTCBinary)
+			r.push(complete.chunks[0])
+			continue
+		}
+		m := vMakeMsg(3, iData, false, next16+d, next32+uint32(d), base+uint32(2*i), 2, PayloadTypeWebRTCBinary)
+		r.push(m.chunks[vPick(2)]) // only one of its two fragments arrived
+	}
+	after := vMakeMsg(3, iData, false, next16+uint16(k), next32+uint32(k), base+uint32(2*k), 1, PayloadTypeWebRTCString)
+	r.push(after.chunks[0])
+	if iData {
+		r.forwardTSNForOrderedMID(next32 + uint32(k) - 1)
+		vassert(r.nextMID == next32+uint32(k), "the cursor moves right behind the last skipped message")
+	} else {
+		r.forwardTSNForOrdered(next16 + uint16(k) - 1)
+		vassert(r.nextSSN == next16+uint16(k), "the cursor moves right behind the last skipped message")
+	}
+	want := 1
+	if complete != nil {
+		want = 2
+	}
+	vassert(r.getNumBytes() == want, "every partially received message covered by the skip is dropped, the complete ones stay")
+	buf := make([]byte, 4)
+	if complete != nil {
+		n, _, err := r.read(buf)
+		vassert(err == nil && n == 1 && buf[0] == complete.bytes[0], "a complete message below the skip point is still delivered, first")
+	}
+	n, ppi, err := r.read(buf)
+	vassert(err == nil && n == 1 && buf[0] == after.bytes[0] && ppi == PayloadTypeWebRTCString, "the message after the skipped ones is delivered intact")
+	vassert(r.getNumBytes() == 0 && !r.isReadable(), "nothing is left behind")
+	if iData {
+		vassert(len(r.orderedMID) == 0 && len(r.orderedMIDMap) == 0, "and nothing in the message index")
+	} else {
+		vassert(len(r.ordered) == 0, "and nothing in the ordered list")
+	}
+	vcover("end")
+}
+
 // C07.L2b: an I-FORWARD-TSN that skips an unordered and an ordered message of the same
 // stream lists both, each with its own message identifier (the two identifier spaces are
 // independent: any relation between the two numbers).
